@@ -10,7 +10,7 @@ from ..harness import World, execute, place_summary, probe, violation
 
 LEVEL = "exploration"
 PLAN = {
-    "quick": {"mem": 1200},
+    "quick": {"mem": 3000},
     "thorough": {"mem": 70000},
 }
 BUDGET = {"quick": 50, "thorough": 900}
